@@ -660,6 +660,7 @@ def push_problems(repo, folder, bb_cls, ops):
                 return out
             total = total + Lin.of(LENK(n))
             s, e, c, ll = (_getter(it, blk, g) for g in ("get_start", "get_end", "get_nb_instructions", "get_last_length"))
+            exact([s, e, c, ll], "DEXBasicBlock.push model")
             if not lin_eq(s, BSTART):
                 out.append(("start", "push changes the block start to %s" % show(s)))
             if not lin_eq(e, total.simplify()):
@@ -757,6 +758,7 @@ def lookup_problems(repo, folder, bbs_cls, bb_cls):
                    ("the byte before the first block", lin({BSTART: 1}, -1), None)]
         for what, q, want in queries:
             got = it.call_function(gbb, [q], recv=cont)
+            exact(got, "BasicBlocks.get_basic_block model")
             if got is not want:
                 res.append(("lookup", "get_basic_block(%s) returns %s, expected %s" % (what, pp(got), pp(want) if want is not None else None)))
         return res
